@@ -118,6 +118,15 @@ PROPERTIES['C04'] = {
     'level_note': _SEL_NOTE,
 }
 
+PROPERTIES['C14'] = {
+    'modules': ['harness.c14_comments', 'harness.view_ops'], 'budget': {'quick': 1500, 'thorough': 3300},
+    'level_text': 'Solver-enumerated layouts (every sequence of up to 5-6 lines over 10 line kinds that the grammar accepts) and claim/unclaim/auto-claim '
+                  'call sequences: ownership uniqueness and the claimed flag from a generic walk, no unowned comment after default parsing, idempotence, '
+                  'parse-time == later attribution, unclaim+claim restores, and the documented leading/trailing/standalone order against a reference '
+                  'computed from the text geometry.',
+    'level_note': _SEL_NOTE + ' The documented order is asserted only where docs/special/comments.md is unambiguous (same indentation read as indentation class, as beancount does).',
+}
+
 NOT_APPLICABLE = {
     'C16': 'The property is about the operating system and C io layer behind editor.py (text-mode newline translation, pathlib/glob/'
            'os.unlink/os.makedirs, mtimes): none of it can be executed symbolically by CrossHair or encoded for z3, CrossHair forbids '
